@@ -14,7 +14,7 @@ func init() {
 }
 
 func runC24(p *core.Prog, r *core.Report) {
-	r.Explain = "Decides that there is no path to local storage around validation, on all CFG paths: (R1) the put service's storage interface is called only by putObjectLocally, whose callers are the validated replication entry point and the distributed target's local write; the engine's Put is called only from the tabled callers; (R2) ValidateAndStoreObjectLocally stores only after format validation, content validation, declared-size equality, size limit and the SHA-256 payload comparison all passed; (R3) every object target the put streamer installs is a validating target with the format validator set, and a distributed target is created only inside such a target (directly, or behind the node's own slicer); (R4) the validating target forwards the header only after format validation passed and closes the next target only after payload size and checksum comparisons (for prepared objects); (R5) the format validator reports success for a prepared object only after its identifier was verified against the header and — unless it is an EC part, which is unsigned by design — its signature was authenticated; nested parent headers go through the same function.; (R6) AuthenticateObject succeeds for an object carrying a session token only after the token was found — on every call, outside the sessions cache — to be issued for the object's signer, and the part of the check that IS cached under the token's digest captures nothing but that token and process-wide services. Not covered: that the validators' predicates are the right ones; chunking of payloads."
+	r.Explain = "Decides that there is no path to local storage around validation, on all CFG paths: (R1) the put service's storage interface is called only by putObjectLocally, whose callers are the validated replication entry point and the distributed target's local write; the engine's Put is called only from the tabled callers; (R2) ValidateAndStoreObjectLocally stores only after format validation, content validation, declared-size equality, size limit and the SHA-256 payload comparison all passed; (R3) every object target the put streamer installs is a validating target with the format validator set, and a distributed target is created only inside such a target (directly, or behind the node's own slicer); (R4) the validating target forwards the header only after format validation passed and closes the next target only after payload size and checksum comparisons (for prepared objects); (R5) the format validator reports success for a prepared object only after its identifier was verified against the header and — unless it is an EC part, which is unsigned by design — its signature was authenticated; nested parent headers go through the same function.; (R6) AuthenticateObject succeeds for an object carrying a session token only after the token was found — on every call, outside the sessions cache — to be issued for the object's signer, and the part of the check that IS cached under the token's digest captures nothing but that token and process-wide services; (R7) validatingTarget.Write reports success only when the next target's Write and the quota check both returned nil. Not covered: that the validators' predicates are the right ones; chunking of payloads."
 	// ---------------- R1
 	r1 := r.Rule("C24.R1", "who may store locally: ObjectStorage.Put ← putObjectLocally ← {ValidateAndStoreObjectLocally, distributedTarget.writeObjectLocally}; engine.Put caller table", 4)
 	all := p.Funcs()
@@ -262,7 +262,9 @@ func runC24(p *core.Prog, r *core.Report) {
 			return false
 		}
 		gs := []core.Guard{
-			{Name: "v1-issued-for-signer", Match: func(s core.Site) bool { return strings.HasSuffix(s.Name, ").AssertAuthKey") && strings.Contains(s.Name, "neofs-sdk-go/session.") }, Comps: []core.Comp{{Result: -1, Kind: core.IsTrue}}},
+			{Name: "v1-issued-for-signer", Match: func(s core.Site) bool {
+				return strings.HasSuffix(s.Name, ").AssertAuthKey") && strings.Contains(s.Name, "neofs-sdk-go/session.")
+			}, Comps: []core.Comp{{Result: -1, Kind: core.IsTrue}}},
 			{Name: "no-v1-token", Pure: true, Comps: []core.Comp{{Result: -1, Kind: core.IsNil}}, Value: func(_ *ssa.Function, v ssa.Value) bool { return cellFrom(v, "object.Object).SessionToken") }},
 			{Name: "v2-issued-for-signer", Match: func(s core.Site) bool { return strings.HasSuffix(s.Name, "session/v2.Token).AssertAuthority") }, Comps: []core.Comp{{Result: 0, Kind: core.IsTrue}, {Result: 1, Kind: core.ErrNil}}},
 			{Name: "no-v2-token", Pure: true, Comps: []core.Comp{{Result: -1, Kind: core.IsNil}}, Value: func(_ *ssa.Function, v ssa.Value) bool { return cellFrom(v, "object.Object).SessionTokenV2") }},
@@ -283,5 +285,18 @@ func runC24(p *core.Prog, r *core.Report) {
 		if n := sessionCacheOnMissPurity(p, r6, []*ssa.Function{ao}); n < 2 {
 			r.Fatalf("C24.R6: expected the V1 and V2 sessions-cache call sites in AuthenticateObject, found %d", n)
 		}
+	}
+	// ---------------- R7 a failed write of the next target is never reported as success
+	r7 := r.Rule("C24.R7", "validatingTarget.Write reports success only if the next target's Write and the quota check both returned nil (a dropped write error lets the client stream on into a slicer that has already failed)", 2)
+	if wfn := p.Func("(*pkg/services/object/put.validatingTarget).Write"); wfn == nil {
+		r.Fatalf("C24.R7: validatingTarget.Write not found")
+	} else {
+		core.CheckSuccessFn(p, r7, wfn, core.SuccessRule{ResultIdx: -1, MinReturns: 1, Guards: []core.Guard{
+			{Name: "next-target-write-ok", Match: func(s core.Site) bool {
+				cc := s.Call.Common()
+				return cc.IsInvoke() && cc.Method.Name() == "Write" && strings.HasSuffix(cc.Value.Type().String(), "object/internal.Target")
+			}, Comps: []core.Comp{{Result: 1, Kind: core.ErrNil}}},
+			core.G("within-quota", core.ErrNil, "(*pkg/services/object/put.validatingTarget).checkQuotaLimits"),
+		}})
 	}
 }
